@@ -535,6 +535,10 @@ func c23Reducers(r *vkit.Run, rg *vkit.Rand, s c23Series) {
 // ---- the check --------------------------------------------------------------------------------
 
 func TestC23(t *testing.T) {
+	if p := os.Getenv("VERIF_REPLAY"); p != "" {
+		c22ReplayFile(t, "C23", p)
+		return
+	}
 	r := vkit.Start(t, "C23", "exploration")
 	defer r.Finish()
 	defer c22PanicGuard(t)
@@ -550,7 +554,7 @@ func TestC23(t *testing.T) {
 		"top/bottom with a tag argument, sample(), holt_winters(), exponential moving averages and other technical-analysis functions",
 		"stddev of a single value: null or NaN both accepted; integral of a single point: 0 or no row both accepted",
 	}
-	nDS := r.N(40, 500)
+	nDS := r.N(80, 3000)
 	perDS := r.N(60, 80)
 	var reportDur time.Duration
 	samplesA := 0
@@ -617,7 +621,7 @@ func TestC23(t *testing.T) {
 		}
 		st.Close()
 	}
-	nB := r.N(4000, 150000)
+	nB := r.N(10000, 150000)
 	for i := 0; i < nB; i++ {
 		rg := r.SubRand("reducers", i)
 		s := c23GenSeries(rg)
